@@ -46,8 +46,9 @@ ASSUMPTIONS = [
     "representable or first rounded to float32, the dtype leaspy stores them in)",
     "model objects are built from parameter dictionaries through BaseModel.load (population latent variables at "
     "their prior mode = the *_mean parameters), not from a fit",
-    "the joint model's event columns (survival / cumulative incidence) are only checked for count, finiteness and "
-    "range; their formula belongs to C08; joint with dimension >= 2 and no source cannot be loaded from a dict and is skipped",
+    "the joint model's event columns (survival / cumulative incidence) are only checked for count and range; their "
+    "formula belongs to C08 (a NaN there, 0/0 after underflow at xi = 2.5, is recorded as outcome 'event_column_nan', "
+    "not judged); joint with dimension >= 2 and no source cannot be loaded from a dict and is skipped",
     "identifiers are strings; one torch thread, float32 default dtype, CPU",
     "mixture model not covered (not part of the statement)",
 ]
@@ -216,9 +217,13 @@ class Judge:
             return
         self.rows += n
         y = arr[:, :dim].astype(np.float64)
-        if not np.isfinite(arr.astype(np.float64)).all():
+        if not np.isfinite(y).all():
             self.add(site, "non-finite value", label, f"{who}: ages {ages} -> {arr.tolist()}", None, arr.tolist())
             return
+        if not np.isfinite(arr[:, dim:].astype(np.float64)).all():
+            # joint model, event columns (survival ratio S(t)/S(t_first)): 0/0 once both underflow (seen for xi = 2.5).
+            # Their formula is not part of this property (C08): recorded as an outcome, not judged.
+            self.flags.add("event_column_nan")
         ref, tol = R.trajectory(pop, xi, tau, src, ages)
         bad = np.abs(y - ref) > tol
         if bad.any():
@@ -432,7 +437,10 @@ def _run_layout(case):
         if s == CIT:
             feat = "joint model, empty age list" if joint and any(not LAYOUT_LISTS[n] for _, n in request) else "-"
         elif layout == "frame":
-            if not rows:
+            if joint:
+                # whatever the request, tables of a joint model fail for one reason (event columns are not labelled)
+                feat = "joint model"
+            elif not rows:
                 feat = "empty request"
             else:
                 fs = (["joint model"] if joint else []) + (
@@ -480,7 +488,8 @@ def _run_layout(case):
         judge.add(site, "result is not a DataFrame", label, f"got {type(res).__name__}")
         return _finish(judge, site, "ok")
     cols = list(res.columns)
-    if cols[: spec["dim"]] != ctx["features"] or len(cols) != ctx["n_out"]:
+    # (the number of extra event columns of the joint model is only demanded when there is at least one row)
+    if cols[: spec["dim"]] != ctx["features"] or (len(res) and len(cols) != ctx["n_out"]):
         judge.add(site, "columns differ from the model features", label, f"columns {cols}", ctx["features"], cols)
         return _finish(judge, site, "ok")
     index_ok = True
